@@ -333,6 +333,21 @@ theorem classify_isOk (syms syms' : List Sym) (t : Node) (ha : annotate syms t =
   obtain ⟨l, hl⟩ := exitClass_isSome (countDelays t) syms' h
   exact ⟨l, by simp [classify, ha, hl]⟩
 
+theorem input_not_mem_stripNested (p : List String) (h : p.count "input" ≤ 1) : "input" ∉ stripNested p := by
+  unfold stripNested
+  rw [List.mem_erase_of_ne (by decide), ← List.count_eq_zero, List.count_erase_self]
+  omega
+
+theorem output_not_mem_stripNested (p : List String) (h : p.count "output" ≤ 1) : "output" ∉ stripNested p := by
+  unfold stripNested
+  rw [← List.count_eq_zero, List.count_erase_self, List.count_erase_of_ne (by decide)]
+  omega
+
+theorem mem_stripNested_of_ne (p : List String) (x : String) (h1 : x ≠ "input") (h2 : x ≠ "output") :
+    x ∈ stripNested p ↔ x ∈ p := by
+  unfold stripNested
+  rw [List.mem_erase_of_ne h2, List.mem_erase_of_ne h1]
+
 theorem derName_injective : Function.Injective derName := by
   intro a b h
   unfold derName at h
